@@ -30,7 +30,7 @@ ASSUMPTIONS = [
     "limit 30",
 ]
 REQUIRED = ["noncontiguous_exact", "contiguous_exact", "limit_rejected", "limit_accepted",
-            "hist_refused_assignment", "hist_step_ok", "hist_group_with_members"]
+            "hist_refused_assignment", "hist_step_ok", "hist_group_with_members", "hist_blind"]
 
 ALL32 = S.ALL32
 SEED_BASES = [0x0A141E28, 0xC0A80A63, 0xAC100B07, 0x644F2D11, 0x0B16212C]
@@ -110,7 +110,7 @@ def replay(case, ctx):
     if k == "mask":
         _one_mask(case["base"], case["mask"], ctx, case.get("max_ncwb"))
     elif k == "history":
-        _run_history(case["cls"], case["ops"], ctx)
+        _run_history(case["cls"], case["ops"], ctx, blind=case.get("blind", False))
     elif k == "limit":
         _limit(case["limit"], ctx)
     elif k == "contig":
@@ -457,6 +457,7 @@ def _w_ops():
     ops = [("line", ln) for ln in W_LINES]
     ops += [("max_ncwb", v) for v in (0, 2, 16)]
     ops += [("q", q) for q in ("ipnets", "ipnet", "line", "prefix", "wildmask", "data")]
+    ops += [("q_edit", "ipnets")]  # the caller edits the list it got back
     return ops
 
 
@@ -478,6 +479,7 @@ def _a_ops(cls):
     if cls == "ag":
         ops += [("line", "group-object G")]
     ops += [("q", q) for q in ("ipnets", "prefixes", "subnets", "wildcards", "ipnet", "line")]
+    ops += [("q_edit", q) for q in ("ipnets", "prefixes")]
     return ops
 
 
@@ -544,17 +546,25 @@ def _apply(cls, obj, op):
             val = getattr(obj, arg)
             if callable(val):
                 val()
+        elif name == "q_edit":
+            # a returned list belongs to the caller: editing it must not reach the object
+            val = getattr(obj, arg)()
+            if isinstance(val, list) and len(val) > 1:
+                val.pop()
+                val.append(val[0])
     except (ValueError, TypeError):
         return "refused"
     return "ok"
 
 
-def _run_history(cls, ops, ctx, record=True):
+def _run_history(cls, ops, ctx, record=True, blind=False):
+    """blind: nothing is read from the object between the steps (a derived value computed early
+    can hide what a later step left behind); the invariant is checked after the last step only."""
     obj = _new(cls)
-    case = dict(kind="history", cls=cls, ops=[list(o) for o in ops])
+    case = dict(kind="history", cls=cls, ops=[list(o) for o in ops], blind=blind)
     for i, op in enumerate(ops):
         op = tuple(op)
-        before_line = obj.line
+        before_line = "" if blind else obj.line
         try:
             res = _apply(cls, obj, op)
         except Exception as ex:  # noqa - anything but the documented errors
@@ -562,6 +572,10 @@ def _run_history(cls, ops, ctx, record=True):
                      "documented ValueError/TypeError or success")
             return
         ctx.trans()
+        if blind and i < len(ops) - 1:
+            if res == "refused" and op[0] not in ("line", "prefix"):
+                return
+            continue
         if res == "ok" and cls != "w" and obj.addrgroup and obj.items:
             ctx.out("hist_group_with_members")
         if res == "refused" and op[0] not in ("line", "prefix"):
@@ -630,6 +644,10 @@ def _hist(unit, ctx, cls):
         if any(o[0] in ("line", "prefix") for o in hist[:-1]):
             ctx.nt_count()
         _run_history(cls, hist, ctx)
+        if hist[-1][0] in ("line", "prefix", "max_ncwb", "items") and \
+                not any(o[0].startswith("q") for o in hist):
+            _run_history(cls, hist, ctx, record=False, blind=True)
+            ctx.out("hist_blind")
     ctx.add(f"histories_{cls}", n)
     # determinism self-check: the first history replayed twice must give identical observations
     from vf.ctx import Ctx
